@@ -198,7 +198,7 @@ func RunC20(c *mc.Ctx) {
 		}
 		c.Space("bloom: a 1030-output transaction against every other operation (4096-byte filter)", int64(len(bigs)))
 		c.ParFor(int64(len(bigs)), func(w *mc.W, i int64) {
-			exploreCase(c, w, c20Case{Kind: "bloom", Bloom: bigs[i], Bound: 2}, 20000)
+			exploreCase(c, w, c20Case{Kind: "bloom", Bloom: bigs[i], Bound: 2}, 300) // long executions: the cap bounds the damage when a changed tree makes every step a branch point (never reached on the unchanged tree: <= 26 executions)
 		})
 	}
 
